@@ -356,8 +356,8 @@ type walReader interface {
 
 type obs struct {
 	deadAbsent, deadOther, deadNoIdx int
-	entries, aboveLast, liveBlocks    int
-	readAll                           int
+	entries, aboveLast, liveBlocks   int
+	readAll                          int
 }
 
 func sameU64s(a, b []uint64) bool {
@@ -641,6 +641,13 @@ func (h *hist) step(m *Model, op Op, done []Op, st *walStats) (v *walViolation) 
 	}
 	m.apply(op)
 	st.ops[op.Kind]++
+	if err := h.restart(); err != nil {
+		return &walViolation{key: "wal/reopen/" + op.Kind, desc: fmt.Sprintf("reopen after %s: %v", op, err), ops: all}
+	}
+	if ds := verify(h.wal, m, h.genNo, h.genHash, &st.obs); len(ds) > 0 {
+		return &walViolation{key: "wal/" + ds[0].class + "/after-" + op.Kind,
+			desc: fmt.Sprintf("after %s and restart (op #%d): %s (%d discrepancies)", op, len(all), ds[0].msg, len(ds)), ops: all}
+	}
 	// crash between two durable units of an append: the log must be the old one or the new one
 	// (the hard state is written after the entries, so "new log, old hard state" is legitimate)
 	if isAppend && len(snaps) > 1 {
@@ -658,13 +665,6 @@ func (h *hist) step(m *Model, op Op, done []Op, st *walStats) (v *walViolation) 
 					desc: fmt.Sprintf("a crash after durable unit %d of %d of %s leaves a log that is neither the old nor the new one: vs new log: %s: %s", k+1, len(snaps), op, ds[0].class, ds[0].msg), ops: all}
 			}
 		}
-	}
-	if err := h.restart(); err != nil {
-		return &walViolation{key: "wal/reopen/" + op.Kind, desc: fmt.Sprintf("reopen after %s: %v", op, err), ops: all}
-	}
-	if ds := verify(h.wal, m, h.genNo, h.genHash, &st.obs); len(ds) > 0 {
-		return &walViolation{key: "wal/" + ds[0].class + "/after-" + op.Kind,
-			desc: fmt.Sprintf("after %s and restart (op #%d): %s (%d discrepancies)", op, len(all), ds[0].msg, len(ds)), ops: all}
 	}
 	return nil
 }
@@ -797,7 +797,7 @@ func genHistory(r *rand.Rand, n int) []Op {
 func patterns(n int, full bool, r *rand.Rand) [][]string {
 	ks := []string{"b", "e", "c"}
 	var out [][]string
-	if full || n <= 2 {
+	if n <= 2 || (full && n <= 3) {
 		tot := 1
 		for i := 0; i < n; i++ {
 			tot *= 3
@@ -828,7 +828,11 @@ func patterns(n int, full bool, r *rand.Rand) [][]string {
 		push(u)
 		push(rot)
 	}
-	for k := 0; k < 2; k++ {
+	extra := 2
+	if full {
+		extra = 20
+	}
+	for k := 0; k < extra; k++ {
 		p := make([]string, n)
 		for i := range p {
 			p[i] = ks[r.Intn(3)]
